@@ -63,7 +63,9 @@ impl<H> RollingHashChunker<H> {
         let filter_mask = self.filter_mask;
         let min_bytes = std::cmp::min(self.max_chunk_size, buf.len());
         let mut end_offset = self.offset;
-        let found_boundary = buf[self.offset..min_bytes]
+        // The offset may already be past the max chunk size if the hash window or the
+        // min chunk size is bigger than the max chunk size.
+        let found_boundary = buf[std::cmp::min(self.offset, min_bytes)..min_bytes]
             .iter()
             .map(|&val| {
                 end_offset += 1;
